@@ -139,7 +139,17 @@ pub fn gen_history<S: Sut>(seed: u64, cfg: Cfg, sweep: Option<Sweep>) -> Outcome
                     _ => rng.chance(1, 2),
                 };
                 if take {
-                    want |= 1 << i | w.deps[i];
+                    // closed under the authoring discipline: causal past, or only the same author's earlier ops
+                    want |= 1 << i;
+                    if cfg.delivery == Delivery::Causal {
+                        want |= w.deps[i];
+                    } else {
+                        for j in 0..i {
+                            if w.author[j] == w.author[i] {
+                                want |= 1 << j;
+                            }
+                        }
+                    }
                 }
             }
             for i in 0..w.ops.len() {
